@@ -37,8 +37,12 @@ func checkC05(c *Ctx) {
 			pair{ModelKind{"high", 1}, ModelKind{"high", 3}}, pair{ModelKind{"high", 3}, ModelKind{"exact", 0}})
 	}
 	for _, p := range treePairs {
-		c.runStoreGen(&StoreGen{Kinds: []ModelKind{p.a, p.b}, Keys: []int{0, 2, 4}, Q: 4, Weights: []int{6}, Factors: [][2]int{{3, 2}},
+		c.runStoreGen(&StoreGen{Kinds: []ModelKind{p.a, p.b}, Keys: []int{0, 2, 4}, Q: 4, Weights: []int{6}, Factors: [][2]int{{3, 2}, {1, 2}},
 			Ops: opsC05Tree, Depth: c.pick(3, 4)}, c.pick(4, 8), fmt.Sprintf("exhaustive tree %s%d x %s%d", p.a.Kind, p.a.N, p.b.Kind, p.b.N))
+	}
+	for _, p := range []pair{{ModelKind{"low", 2}, ModelKind{"low", 3}}, {ModelKind{"high", 2}, ModelKind{"high", 3}}} {
+		c.runStoreGen(&StoreGen{Kinds: []ModelKind{p.a, p.b}, Keys: []int{0, 2, 4}, Q: 4, Weights: []int{6}, Ops: []string{"Add", "Merge", "Clear", "CopyTo"},
+			Depth: c.pick(4, 6)}, c.pick(3, 3), fmt.Sprintf("deep narrow tree add/merge/clear/copy %s%d x %s%d", p.a.Kind, p.a.N, p.b.Kind, p.b.N))
 	}
 	simKinds := [][]ModelKind{
 		{{"low", 2}, {"low", 4}, {"exact", 0}}, {{"high", 2}, {"high", 4}, {"exact", 0}}, {{"low", 3}, {"high", 3}, {"low", 1}},
